@@ -108,7 +108,7 @@ func init() {
 	}
 	c14t := func(name string, max int, extra map[string]int) HarnessSpec {
 		h := c14(name, max, extra)
-		h.MaxDecisions, h.MaxPaths, h.TimeoutSec = 8000, 4000000, 1500
+		h.MaxDecisions, h.MaxPaths, h.TimeoutSec = 8000, 4000000, 240
 		return h
 	}
 	registry["C14"] = &Property{
@@ -119,18 +119,20 @@ func init() {
 			c14("VC14_ParseUtf16Var", 10, nil), c14("VC14_ReadNullString", 16, nil), c14("VC14_BytesToGUID", 24, nil), c14("VC14_StringToGUID", 0, nil),
 			c14("VC14_LoadOption", 22, map[string]int{"vsymC14Path": 6}), c14("VC14_DevicePath", 14, nil), c14("VC14_MediaNode", 0, map[string]int{"vsymC14Path": 8}),
 			c14("VC14_Efistring", 10, nil), c14("VC14_BootOrder", 16, nil), c14("VC14_Efibool", 4, nil), c14("VC14_ParseEfivars", 32, nil),
+			c14("VC14_ReadKey", 0, nil),
 		},
 		Thorough: []HarnessSpec{
 			c14t("VC14_SignatureDatabase", 128, nil), c14t("VC14_SignatureDatabaseUnmarshal", 128, nil), c14t("VC14_SignatureList", 128, nil),
 			c14t("VC14_AuthDescriptor", 160, nil), c14t("VC14_AuthDescriptorUnmarshal", 160, nil), c14t("VC14_WinCertificate", 160, nil),
 			c14t("VC14_WinCertificateUEFIGUID", 160, nil), c14t("VC14_SupportedSignatures", 160, nil),
 			c14t("VC14_ParseUtf16Var", 14, nil), c14t("VC14_ReadNullString", 40, nil), c14t("VC14_BytesToGUID", 40, nil), c14t("VC14_StringToGUID", 0, nil),
-			c14t("VC14_LoadOption", 26, map[string]int{"vsymC14Path": 6}), c14t("VC14_DevicePath", 18, nil), c14t("VC14_MediaNode", 0, map[string]int{"vsymC14Path": 12}),
+			c14t("VC14_LoadOption", 24, map[string]int{"vsymC14Path": 6}), c14t("VC14_DevicePath", 16, nil), c14t("VC14_MediaNode", 0, map[string]int{"vsymC14Path": 12}),
 			c14t("VC14_Efistring", 14, nil), c14t("VC14_BootOrder", 64, nil), c14t("VC14_Efibool", 8, nil), c14t("VC14_ParseEfivars", 96, nil),
+			c14t("VC14_ReadKey", 0, nil),
 		},
-		Bounds: []string{"thorough tier: the same harnesses with inputs up to 128 bytes (signature database / list), 160 (descriptor, WIN_CERTIFICATE, supported signatures), 14 (UTF-16), 26 (load option), 18 (device path), 96 (variable file)", "one harness per decoder entry point, every input byte and the length symbolic (length case-split): signature database/list, auth descriptor, WIN_CERTIFICATE(_UEFI_GUID), supported signatures <= 64 bytes; UTF-16 decoders <= 10 bytes; load option <= 22 bytes with description <= 3 code units; device path <= 14 bytes (three nodes); media node <= 44 bytes (file path <= 8); GUID text: canonical layout with 3 symbolic characters (one a separator position), and any text <= 4 chars; variable file <= 32 bytes with an independent symbolic stat size",
+		Bounds: []string{"thorough tier: the same harnesses with inputs up to 128 bytes (signature database / list), 160 (descriptor, WIN_CERTIFICATE, supported signatures), 14 (UTF-16), 24 (load option), 16 (device path), 96 (variable file), 240 s per harness (a harness that reaches the limit reports the paths left as not explored)", "one harness per decoder entry point, every input byte and the length symbolic (length case-split): signature database/list, auth descriptor, WIN_CERTIFICATE(_UEFI_GUID), supported signatures <= 64 bytes; UTF-16 decoders <= 10 bytes; load option <= 22 bytes with description <= 3 code units; device path <= 14 bytes (three nodes); media node <= 44 bytes (file path <= 8); GUID text: canonical layout with 3 symbolic characters (one a separator position), and any text <= 4 chars; variable file <= 32 bytes with an independent symbolic stat size; PEM key decoder on PKCS#8 keys of every kind the standard library returns, a non-key PEM block and non-PEM text",
 			"obligations on every path: no panic, no log.Fatal/os.Exit, every make([]byte,n) <= 8*len+8192, termination within the unwinding bounds"},
-		Outside:     []string{"inputs longer than the bounds", "wall-clock time and resident memory as measured quantities (replaced by unwinding bounds and allocation-size obligations)", "PEM key/certificate files (encoding/pem and crypto/x509 are not interpreted)", "formatted text (fmt.Sprintf is opaque in these harnesses)"},
+		Outside:     []string{"inputs longer than the bounds", "wall-clock time and resident memory as measured quantities (replaced by unwinding bounds and allocation-size obligations)", "PEM certificate files, and key files beyond the kinds below (encoding/pem and crypto/x509 are not interpreted: pem.Decode is modelled, x509.ParsePKCS8PrivateKey is an environment stub returning a key of each documented type — RSA, ECDSA, Ed25519, X25519 — or an error; natively real keys of those kinds are generated)", "formatted text (fmt.Sprintf is opaque in these harnesses)"},
 		Assumptions: commonAssumptions,
 	}
 	c01 := func(nsec, plus, lfanew, nonEmpty, timeout int) HarnessSpec {
@@ -157,7 +159,7 @@ func init() {
 			MaxDecisions: 1000, MaxPaths: 5000, TimeoutSec: timeout, NeedReach: []string{"end"}}
 	}
 	registry["C03"] = &Property{
-		Quick:    []HarnessSpec{c03("VC03_AppendLayout", 1, 1, 1, 400), c03("VC03_AppendTwice", 1, 1, 2, 400), {Name: "VC03_SignVerify", MaxDecisions: 2000, TimeoutSec: 300, NeedReach: []string{"end"}}},
+		Quick:    []HarnessSpec{c03("VC03_AppendLayout", 1, 1, 1, 400), c03("VC03_AppendLayout", 1, 0, 1, 400), c03("VC03_AppendTwice", 1, 1, 2, 400), {Name: "VC03_SignVerify", MaxDecisions: 2000, TimeoutSec: 300, NeedReach: []string{"end"}}},
 		Thorough: []HarnessSpec{c03("VC03_AppendLayout", 0, 1, 1, 600), c03("VC03_AppendLayout", 1, 1, 1, 600), c03("VC03_AppendLayout", 1, 0, 1, 600), c03("VC03_AppendLayout", 2, 1, 1, 1200), c03("VC03_AppendTwice", 1, 1, 3, 900), {Name: "VC03_SignVerify", MaxDecisions: 2000, TimeoutSec: 600, NeedReach: []string{"end"}}},
 		Bounds: []string{"sign/verify histories on the shipped test image under the signature model: sign, serialise, re-parse (digest unchanged, embedded digest equal, verifies for the signer, not for another certificate), sign again with another key on the re-parsed image (both verify, a third certificate does not, two table entries); serials symbolic",
 			"symbolic well-formed image as in C01 (1 section quick; 0..2 thorough; PE32/PE32+), with or without an existing certificate table of arbitrary content; signature bytes and length symbolic (0..65536, every length mod 8)",
@@ -300,14 +302,18 @@ func init() {
 	}
 	registry["C13"] = &Property{
 		Quick: []HarnessSpec{
-			{Name: "VC13_HeaderFields", Params: map[string]int{"vsymC13Field": -1}, MaxDecisions: 3000, MaxPaths: 20000, TimeoutSec: 900, NeedReach: []string{"parsed", "rejected", "end"}},
+			{Name: "VC13_HeaderFields", Params: map[string]int{"vsymC13Field": 0}, MaxDecisions: 3000, MaxPaths: 20000, TimeoutSec: 600, NeedReach: []string{"parsed", "end"}},
+			{Name: "VC13_HeaderFields", Params: map[string]int{"vsymC13Field": 2}, MaxDecisions: 3000, MaxPaths: 20000, TimeoutSec: 600, NeedReach: []string{"parsed", "end"}},
+			{Name: "VC13_HeaderFields", Params: map[string]int{"vsymC13Field": -2}, MaxDecisions: 3000, MaxPaths: 20000, TimeoutSec: 600, NeedReach: []string{"parsed", "rejected", "end"}},
 			{Name: "VC13_CertificateTable", Params: map[string]int{"vsymC13Table": 24}, ConcAlloc: true, MaxDecisions: 2000, NeedReach: []string{"end"}},
 			{Name: "VC13_NoAttributes", NeedReach: []string{"end"}},
 			{Name: "VC13_SmallDER", Params: map[string]int{"vsymC13Max": 12}, MaxDecisions: 2000, MaxPaths: 400000, TimeoutSec: 300, NeedReach: []string{"end"}},
 			{Name: "VC13_BlobByte", Params: map[string]int{"vsymC13Stride": 64}, MaxDecisions: 2000, TimeoutSec: 400, NeedReach: []string{"end"}},
 		},
 		Thorough: []HarnessSpec{
-			{Name: "VC13_HeaderFields", Params: map[string]int{"vsymC13Field": -1}, MaxDecisions: 6000, MaxPaths: 200000, TimeoutSec: 1200, NeedReach: []string{"parsed", "rejected", "end"}},
+			{Name: "VC13_HeaderFields", Params: map[string]int{"vsymC13Field": 0}, MaxDecisions: 6000, MaxPaths: 200000, TimeoutSec: 900, NeedReach: []string{"parsed", "end"}},
+			{Name: "VC13_HeaderFields", Params: map[string]int{"vsymC13Field": 2}, MaxDecisions: 6000, MaxPaths: 200000, TimeoutSec: 900, NeedReach: []string{"parsed", "end"}},
+			{Name: "VC13_HeaderFields", Params: map[string]int{"vsymC13Field": -2}, MaxDecisions: 6000, MaxPaths: 200000, TimeoutSec: 900, NeedReach: []string{"parsed", "rejected", "end"}},
 			{Name: "VC13_CertificateTable", Params: map[string]int{"vsymC13Table": 48}, ConcAlloc: true, MaxDecisions: 4000, MaxPaths: 2000000, TimeoutSec: 600, NeedReach: []string{"end"}},
 			{Name: "VC13_NoAttributes", NeedReach: []string{"end"}},
 			{Name: "VC13_SmallDER", Params: map[string]int{"vsymC13Max": 14}, MaxDecisions: 4000, MaxPaths: 4000000, TimeoutSec: 900, NeedReach: []string{"end"}},
